@@ -79,7 +79,7 @@ async def _do(p, call, n):
 def s1_programs(src, length, fault_kinds, max_fault_requests):
     prog = [ALPHABET[src.choice(f"call{i}", len(ALPHABET))] for i in range(length)]
     cluster = simkafka.Cluster(nodes=(0, 1), topics={"t": 2, "in": 1})
-    faults = txnsim.TxnFaults(src, fault_kinds, max_fault_requests, 1, apis={24, 25, 26, 28})
+    faults = txnsim.TxnFaults(src, fault_kinds, max_fault_requests, 1, apis={10, 24, 25, 26, 28})
     cluster.fault_fn = faults
     obs = []
     res = {}
